@@ -21,7 +21,7 @@ RecInplace(ev) ==
 Raw(ev) == "raw" \in DOMAIN ev.args
 MergeModesKnown(ev) == ev.args.sample \in {"union", "intersection"} /\ ev.args.observation \in {"union", "intersection"}
 NeedsResult(ev) ==
-  Ok(ev) /\ ~Raw(ev) /\ (ev.call \in {"head", "sort_order", "transpose", "copy", "merge", "concat"}
+  Ok(ev) /\ ~Raw(ev) /\ (ev.call \in {"head", "sort_order", "transpose", "copy", "merge", "concat", "align_df"}
                          \/ (ev.call \in {"filter", "remove_empty", "update_ids"} /\ ~ev.args.inplace))
 
 RecClauses(ev) ==
@@ -31,6 +31,7 @@ RecClauses(ev) ==
     [] ev.call = "update_ids"   -> Clauses_update_ids(ev) @@ RecInplace(ev)
     [] ev.call = "head"         -> Clauses_head(ev) @@ NewTableClauses(ev)
     [] ev.call = "sort_order"   -> Clauses_sort_order(ev) @@ NewTableClauses(ev)
+    [] ev.call = "align_df"     -> Clauses_align_df(ev) @@ NewTableClauses(ev)
     [] ev.call = "transpose"    -> Clauses_transpose(ev) @@ NewTableClauses(ev)
     [] ev.call = "copy"         -> [C06_copy_equal_content |-> Failed(ev) \/ SameTable(ev.post[ev.res], ev.pre[ev.recv])]
                                    @@ NewTableClauses(ev)
